@@ -200,8 +200,9 @@ class NmtMaster(NmtBase):
     def stop_node_guarding(self):
         """Stops the node guarding mechanism."""
         if self._node_guarding_producer is not None:
-            self._node_guarding_producer.stop()
-            self._node_guarding_producer = None
+            # Forget the task first, a stop that fails is not to be repeated
+            task, self._node_guarding_producer = self._node_guarding_producer, None
+            task.stop()
 
 
 class NmtSlave(NmtBase):
@@ -267,8 +268,9 @@ class NmtSlave(NmtBase):
         """Stop the heartbeat service."""
         if self._send_task is not None:
             logger.info("Stop the heartbeat timer")
-            self._send_task.stop()
-            self._send_task = None
+            # Forget the task first, a stop that fails is not to be repeated
+            task, self._send_task = self._send_task, None
+            task.stop()
 
     def update_heartbeat(self):
         if self._send_task is not None:
